@@ -86,7 +86,13 @@ enum Step {
     Reap,
     Consume(u32),
     Post(u32),
+    /// SQPOLL ring: the kernel poll thread found nothing to do for sq_thread_idle and goes to sleep
+    /// (sets IORING_SQ_NEED_WAKEUP in the shared sq flags word, consumes nothing until woken)
+    Idle,
+    /// the kernel sets the unrelated bits of the sq flags word (IORING_SQ_CQ_OVERFLOW=2, IORING_SQ_TASKRUN=4) to k
+    Noise(u32),
 }
+const SQ_NEED_WAKEUP: u32 = 1;
 fn steps_str(s: &[Step]) -> String {
     let mut o = String::new();
     for (i, st) in s.iter().enumerate() {
@@ -99,6 +105,8 @@ fn steps_str(s: &[Step]) -> String {
             Step::Reap => o.push('R'),
             Step::Consume(k) => o.push_str(&format!("C{k}")),
             Step::Post(k) => o.push_str(&format!("P{k}")),
+            Step::Idle => o.push('I'),
+            Step::Noise(k) => o.push_str(&format!("N{k}")),
         }
     }
     o
@@ -114,6 +122,8 @@ fn parse_steps(s: &str) -> Vec<Step> {
                 "F" => Step::Flush,
                 "R" => Step::Reap,
                 "C" => Step::Consume(k),
+                "I" => Step::Idle,
+                "N" => Step::Noise(k & 6),
                 _ => Step::Post(k),
             }
         })
@@ -235,6 +245,12 @@ struct Stats {
     sq_full_states: u64,
     cq_full_states: u64,
     runs_with_violation: u64,
+    wakeup_checks: u64,
+    poll_idle_entered: u64,
+    poll_wakeups: u64,
+    consume_skipped_poll_idle: u64,
+    wakeup_checks_with_other_bits: u64,
+    superfluous_wakeups: u64,
 }
 
 struct Sim {
@@ -254,6 +270,8 @@ struct Sim {
     k_cq_tail: u32,
     events: u32,
     trace: bool,
+    /// SQPOLL: the simulated poll thread sleeps (NEED_WAKEUP is set in the shared flags word)
+    poll_idle: bool,
 }
 
 impl Sim {
@@ -275,6 +293,7 @@ impl Sim {
             k_cq_tail: 0,
             events: 0,
             trace: false,
+            poll_idle: false,
         };
         s.reset();
         s
@@ -363,6 +382,7 @@ impl Sim {
         self.reaped = 0;
         self.k_cq_tail = c.cq0;
         self.events = 0;
+        self.poll_idle = false;
         // entries in flight at the start: written the way the application / kernel would have
         // (the wrapper itself is not involved: in a debug build it cannot get past the wrap)
         for i in 0..c.sqf {
@@ -527,8 +547,74 @@ impl Sim {
                         format!("flush_submission_queue returned {ret}; {pending} published entries are not yet consumed by the kernel (shared tail {ktail}, kernel head {})", self.k_sq_head),
                     ));
                 }
-                Ok(())
+                self.app_wakeup_protocol(st)
             }
+        }
+    }
+
+    /// What an application does after publishing entries (io_uring_enter(2), liburing's submit):
+    /// ask the wrapper whether the SQPOLL thread sleeps and, if so, enter with IORING_ENTER_SQ_WAKEUP
+    /// (modelled: the thread clears IORING_SQ_NEED_WAKEUP and polls again).  rusl has no submit
+    /// helper of its own, `IoUring::needs_wakeup` is the whole library side of the protocol.
+    fn app_wakeup_protocol(&mut self, st: &mut Stats) -> Res {
+        let kflags = unsafe { &*self.mem.sq_kflags.a32() };
+        let word = kflags.load(Ordering::Relaxed);
+        let ring: &IoUring = &self.ring;
+        let nw = match vh::catch(|| ring.needs_wakeup()) {
+            Ok(b) => b,
+            Err(p) => return Err(("C17/sqpoll/panic".into(), format!("needs_wakeup panicked ({p}) with sq flags word {word:#x}"))),
+        };
+        st.wakeup_checks += 1;
+        if word & !SQ_NEED_WAKEUP != 0 {
+            st.wakeup_checks_with_other_bits += 1;
+        }
+        let pending = self.flushed - self.consumed;
+        if self.trace {
+            eprintln!("  needs_wakeup -> {nw} (sq flags word {word:#x}, poll thread idle {}, {pending} flushed entries unconsumed)", self.poll_idle);
+        }
+        if self.poll_idle && !nw {
+            return Err((
+                "C17/sqpoll/idle-poll-thread-not-woken".into(),
+                format!("the SQ poll thread sleeps (shared sq flags word {word:#x}, IORING_SQ_NEED_WAKEUP set) with {pending} flushed entries unconsumed (kernel head {}, shared tail {}), needs_wakeup() returned false: no io_uring_enter(IORING_ENTER_SQ_WAKEUP) is issued, the entries are never consumed",
+                    self.k_sq_head, unsafe { (*self.mem.sq_ktail.a32()).load(Ordering::Relaxed) }),
+            ));
+        }
+        if !self.poll_idle && nw {
+            // a superfluous wake-up costs a system call but loses or duplicates nothing: observed, not judged
+            st.superfluous_wakeups += 1;
+        }
+        if nw {
+            // io_uring_enter(IORING_ENTER_SQ_WAKEUP): the thread wakes, clears the bit, polls again
+            kflags.fetch_and(!SQ_NEED_WAKEUP, Ordering::Release);
+            self.poll_idle = false;
+            st.poll_wakeups += 1;
+        }
+        Ok(())
+    }
+
+    fn k_idle(&mut self, st: &mut Stats) {
+        if !self.cfg.sqpoll() || self.poll_idle {
+            return;
+        }
+        // io_sq_thread: sets the bit, looks at the ring once more, sleeps only if it is still empty
+        let tail = unsafe { (*self.mem.sq_ktail.a32()).load(Ordering::Acquire) };
+        if tail != self.k_sq_head {
+            return;
+        }
+        unsafe { (*self.mem.sq_kflags.a32()).fetch_or(SQ_NEED_WAKEUP, Ordering::Release) };
+        self.poll_idle = true;
+        st.poll_idle_entered += 1;
+        if self.trace {
+            eprintln!("  I -> poll thread sleeps, NEED_WAKEUP set");
+        }
+    }
+
+    fn k_noise(&mut self, k: u32) {
+        let f = unsafe { &*self.mem.sq_kflags.a32() };
+        let cur = f.load(Ordering::Relaxed);
+        f.store((cur & SQ_NEED_WAKEUP) | (k & 6), Ordering::Release);
+        if self.trace {
+            eprintln!("  N{k} -> sq flags word {:#x}", (cur & SQ_NEED_WAKEUP) | (k & 6));
         }
     }
 
@@ -631,6 +717,14 @@ impl Sim {
     // ------------------------------------------------------------------ kernel side
     fn k_consume(&mut self, k: u32, st: &mut Stats) -> Res {
         let c = self.cfg;
+        if self.poll_idle {
+            // nobody submits on this ring until the application enters with SQ_WAKEUP
+            st.consume_skipped_poll_idle += 1;
+            if self.trace {
+                eprintln!("  C{k} -> nothing, poll thread sleeps");
+            }
+            return Ok(());
+        }
         let tail = unsafe { (*self.mem.sq_ktail.a32()).load(Ordering::Acquire) };
         let visible = tail.wrapping_sub(self.k_sq_head);
         if visible > c.e {
@@ -746,6 +840,14 @@ impl Sim {
             Step::Reap => self.app_reap(st),
             Step::Consume(k) => self.k_consume(k, st),
             Step::Post(k) => self.k_post(k, st),
+            Step::Idle => {
+                self.k_idle(st);
+                Ok(())
+            }
+            Step::Noise(k) => {
+                self.k_noise(k);
+                Ok(())
+            }
         }
     }
 
@@ -909,6 +1011,12 @@ fn emit_stats(st: &Stats) {
     vh::count("runs_reaching_sq_full", st.sq_full_states);
     vh::count("runs_reaching_cq_full", st.cq_full_states);
     vh::count("runs_with_violation", st.runs_with_violation);
+    vh::count("needs_wakeup_checks", st.wakeup_checks);
+    vh::count("needs_wakeup_checks_with_overflow_or_taskrun_bits_set", st.wakeup_checks_with_other_bits);
+    vh::count("sqpoll_thread_went_idle", st.poll_idle_entered);
+    vh::count("sqpoll_thread_woken_by_application", st.poll_wakeups);
+    vh::count("wakeups_wanted_while_poll_thread_runs_not_judged", st.superfluous_wakeups);
+    vh::count("kernel_consume_skipped_poll_thread_idle", st.consume_skipped_poll_idle);
 }
 
 fn note_cells(cfg: &Cfg, events: u32, violated: bool) {
@@ -977,7 +1085,19 @@ fn gen_steps(r: &mut Rng, cfg: &Cfg, len: usize) -> Vec<Step> {
                 0 => Step::Get,
                 1 => Step::Flush,
                 2 => Step::Reap,
-                3 => Step::Consume(1 + r.below(u64::from(cfg.e)) as u32),
+                3 => {
+                    // the kernel side also moves its flags word: the poll thread of an SQPOLL ring runs
+                    // out of work and sleeps; overflow / task-work bits come and go on every ring
+                    if r.chance(1, 4) {
+                        if cfg.sqpoll() && r.chance(2, 3) {
+                            Step::Idle
+                        } else {
+                            Step::Noise(*r.pick(&[0u32, 2, 4, 6]))
+                        }
+                    } else {
+                        Step::Consume(1 + r.below(u64::from(cfg.e)) as u32)
+                    }
+                }
                 _ => Step::Post(1 + r.below(u64::from(cfg.cqe)) as u32),
             }
         })
